@@ -133,6 +133,7 @@ def check_c13(v: Verdict, n_cfg):
             variants = [("tagged", {**base, tag_name: tag_gen(type(x))}),
                         ("missing", {k: val for k, val in base.items() if k != tag_name}),
                         ("unknown", {**base, tag_name: "nope"}),
+                        ("unknown", {**base, tag_name: None}),          # present, with a value no member has: None
                         ("extra", {**base, tag_name: tag_gen(type(x)), "zz": 1}),
                         ("tag_first", {tag_name: tag_gen(type(x)), **base})]
             for vname, p in variants:
@@ -268,7 +269,7 @@ def check_c10_tagged(v: Verdict, n_cfg):
             if tag_name in fields:
                 return None
             x = m(**{f: rng.randrange(1, 40) for f in fields})
-            kind = rng.choice(["known", "known", "unknown", "missing"]) if default is not None else "known"
+            kind = rng.choice(["known", "known", "unknown", "unknown_none", "missing"]) if default is not None else "known"
             target = m
             p = member_dict(x)
             if kind != "known":
@@ -287,9 +288,11 @@ def check_c10_tagged(v: Verdict, n_cfg):
                 p[tag_name] = tag_gen(m)
             elif kind == "unknown":
                 p[tag_name] = "no-such-tag"
+            elif kind == "unknown_none":
+                p[tag_name] = None            # the tag key is present; its value names no member
             if rng.random() < 0.5:
                 p = dict(reversed(list(p.items())))
-            hist["unknown_tag"] += kind == "unknown"
+            hist["unknown_tag"] += kind in ("unknown", "unknown_none")
             hist["missing_tag"] += kind == "missing"
             hist["with_extras"] += bool(E)
             return p, x, frozenset(E), kind
